@@ -9,9 +9,9 @@ variable {T : Type} [DecidableEq T]
 def H (holds : T → Val → Prop) (l : List T) (v : Val) : Prop := ∀ t ∈ l, holds t v
 
 /-- the documented contracts of the four primitives — nothing else is assumed of them -/
-structure Spec (holds : T → Val → Prop) (P : Prims T) : Prop where
-  refine_ok : ∀ s l Γ xs b o r, P.elimRefine s l Γ xs b o = .ok r → ∀ v, H holds Γ v → H holds r v → H holds l v
-  relax_ok  : ∀ s l Γ xs b o r, P.elimRelax s l Γ xs b o = .ok r → ∀ v, H holds Γ v → H holds l v → H holds r v
+structure Spec (holds : T → Val → Prop) (P : Prims T) (okOrd : List Nat → Prop := fun _ => True) : Prop where
+  refine_ok : ∀ s l Γ xs b o r, okOrd o → P.elimRefine s l Γ xs b o = .ok r → ∀ v, H holds Γ v → H holds r v → H holds l v
+  relax_ok  : ∀ s l Γ xs b o r, okOrd o → P.elimRelax s l Γ xs b o = .ok r → ∀ v, H holds Γ v → H holds l v → H holds r v
   simp_ok   : ∀ s l Γ r, P.simplify s l Γ = .ok r → ∀ v, (∀ g, Γ = some g → H holds g v) → (H holds r v ↔ H holds l v)
   refines_ok : ∀ s l r, P.refines s l r = .ok true → ∀ v, H holds l v → H holds r v
 
@@ -22,7 +22,7 @@ structure ErrSpec (P : Prims T) : Prop where
   simp_err   : ∀ s l Γ e, P.simplify s l Γ = .error e → e = .valueError ∨ e = .oracleStuck
   refines_err : ∀ s l r e, P.refines s l r = .error e → e = .valueError ∨ e = .oracleStuck
 
-variable (holds : T → Val → Prop)
+variable (holds : T → Val → Prop) {okOrd : List Nat → Prop}
 
 theorem H_nil (v : Val) : H holds ([] : List T) v := by intro t ht; cases ht
 
@@ -38,7 +38,7 @@ theorem H_union (a b : List T) (v : Val) : H holds (Gen.list_union a b) v ↔ H 
 theorem H_diff (a b : List T) (v : Val) (h : H holds a v) : H holds (Gen.list_diff a b) v := by
   intro t ht; exact h t ((Gen.mem_list_diff a b t).mp ht).1
 
-theorem mk_sem (vars : T → List Var) (P : Prims T) (hP : Spec holds P) {a g : List T} {ins outs : List Var} {s : Bool} {c : Contract T}
+theorem mk_sem (vars : T → List Var) (P : Prims T) (hP : Spec holds P okOrd) {a g : List T} {ins outs : List Var} {s : Bool} {c : Contract T}
     (h : mkContract vars P a g ins outs s = .ok c) :
     c.a = a ∧ c.ins = ins ∧ c.outs = outs ∧ ∀ v, H holds a v → (H holds c.g v ↔ H holds g v) := by
   unfold mkContract at h
@@ -65,16 +65,16 @@ theorem mk_err (vars : T → List Var) (P : Prims T) (hE : ErrSpec P) {a g : Lis
       exact Or.inr (hE.simp_err _ _ _ _ hs)
   · cases h
 
-theorem orElse_refine (P : Prims T) (hP : Spec holds P) (s : Site) (l Γ : List T) (xs : List Var) (b : Bool) (o : List Nat) (v : Val)
+theorem orElse_refine (P : Prims T) (hP : Spec holds P okOrd) (s : Site) (l Γ : List T) (xs : List Var) (b : Bool) (o : List Nat) (ho : okOrd o) (v : Val)
     (hΓ : H holds Γ v) (h : H holds (orElse (P.elimRefine s l Γ xs b o) l) v) : H holds l v := by
   unfold orElse at h
   split at h
-  · rename_i r hr; exact hP.refine_ok _ _ _ _ _ _ _ hr v hΓ h
+  · rename_i r hr; exact hP.refine_ok _ _ _ _ _ _ _ ho hr v hΓ h
   · exact h
 
 /-- both operands' assumptions follow from the computed assumptions once each operand honours its contract -/
-theorem composeAssumptions_sound (vars : T → List Var) (P : Prims T) (hP : Spec holds P) (c1 c2 : Contract T)
-    (I : Gen.ComposeIface Var) (ord : List Nat) (asm0 : List T)
+theorem composeAssumptions_sound (vars : T → List Var) (P : Prims T) (hP : Spec holds P okOrd) (c1 c2 : Contract T)
+    (I : Gen.ComposeIface Var) (ord : List Nat) (ho : okOrd ord) (asm0 : List T)
     (h : composeAssumptions vars P c1 c2 I ord = .ok asm0) (v : Val) (hasm : H holds asm0 v)
     (h1 : H holds c1.a v → H holds c1.g v) (h2 : H holds c2.a v → H holds c2.g v) :
     H holds c1.a v ∧ H holds c2.a v := by
@@ -86,19 +86,19 @@ theorem composeAssumptions_sound (vars : T → List Var) (P : Prims T) (hP : Spe
     split at h; · cases h
     injection h with e; subst e
     have ⟨hna', ha1⟩ := (H_union holds _ _ v).mp hasm
-    exact ⟨ha1, hP.refine_ok _ _ _ _ _ _ _ hna v ((H_union holds _ _ v).mpr ⟨ha1, h1 ha1⟩) hna'⟩
+    exact ⟨ha1, hP.refine_ok _ _ _ _ _ _ _ ho hna v ((H_union holds _ _ v).mpr ⟨ha1, h1 ha1⟩) hna'⟩
   split at h
   · split at h; · cases h
     rename_i na hna
     split at h; · cases h
     injection h with e; subst e
     have ⟨hna', ha2⟩ := (H_union holds _ _ v).mp hasm
-    exact ⟨hP.refine_ok _ _ _ _ _ _ _ hna v ((H_union holds _ _ v).mpr ⟨ha2, h2 ha2⟩) hna', ha2⟩
+    exact ⟨hP.refine_ok _ _ _ _ _ _ _ ho hna v ((H_union holds _ _ v).mpr ⟨ha2, h2 ha2⟩) hna', ha2⟩
   · injection h with e; subst e
     exact (H_union holds _ _ v).mp hasm
 
-theorem compose_sound (vars : T → List Var) (P : Prims T) (hP : Spec holds P) (c1 c2 c : Contract T) (keep : List Var) (simp : Bool)
-    (ord : List Nat) (h : compose vars P c1 c2 keep simp ord = .ok c) :
+theorem compose_sound (vars : T → List Var) (P : Prims T) (hP : Spec holds P okOrd) (c1 c2 c : Contract T) (keep : List Var) (simp : Bool)
+    (ord : List Nat) (ho : okOrd ord) (h : compose vars P c1 c2 keep simp ord = .ok c) :
     ∀ v, H holds c.a v → (H holds c1.a v → H holds c1.g v) → (H holds c2.a v → H holds c2.g v) →
       H holds c1.a v ∧ H holds c2.a v ∧ H holds c.g v := by
   intro v hca h1 h2
@@ -123,17 +123,18 @@ theorem compose_sound (vars : T → List Var) (P : Prims T) (hP : Spec holds P) 
     · rw [if_pos hs] at hsimp
       exact (hP.simp_ok _ _ _ _ hsimp v (fun g hg => by cases hg)).mp hca
     · rw [if_neg hs] at hsimp; injection hsimp with e; subst e; exact hca
-  have hboth := composeAssumptions_sound holds vars P hP c1 c2 _ ord asm0 hasm v hasm0 h1 h2
+  have hboth := composeAssumptions_sound holds vars P hP c1 c2 _ ord ho asm0 hasm v hasm0 h1 h2
   refine ⟨hboth.1, hboth.2, ?_⟩
   have G1 := h1 hboth.1
   have G2 := h2 hboth.2
-  have hg1v := hP.relax_ok _ _ _ _ _ _ _ hg1 v G2 G1
-  have hg2v := hP.relax_ok _ _ _ _ _ _ _ hg2 v G1 G2
-  have hallv := hP.relax_ok _ _ _ _ _ _ _ hall v hca ((H_union holds _ _ v).mpr ⟨hg1v, hg2v⟩)
-  exact (hcg v hca).mpr (H_diff holds _ _ v hallv)
+  have hg1v := hP.relax_ok _ _ _ _ _ _ _ ho hg1 v G2 G1
+  have hg2v := hP.relax_ok _ _ _ _ _ _ _ ho hg2 v G1 G2
+  have hallv := hP.relax_ok _ _ _ _ _ _ _ ho hall v hca ((H_union holds _ _ v).mpr ⟨hg1v, hg2v⟩)
+  exact (hcg v hca).mpr ((H_union holds _ _ v).mpr
+    ⟨H_diff holds _ _ v hallv, H_diff holds _ _ v ((H_union holds _ _ v).mpr ⟨G1, G2⟩)⟩)
 
-theorem quotient_sound (vars : T → List Var) (P : Prims T) (hP : Spec holds P) (c c1 q : Contract T) (addl : List Var) (simp : Bool)
-    (ord : List Nat) (h : quotient vars P c c1 addl simp ord = .ok q) :
+theorem quotient_sound (vars : T → List Var) (P : Prims T) (hP : Spec holds P okOrd) (c c1 q : Contract T) (addl : List Var) (simp : Bool)
+    (ord : List Nat) (ho : okOrd ord) (h : quotient vars P c c1 addl simp ord = .ok q) :
     ∀ v, H holds c.a v → (H holds c1.a v → H holds c1.g v) → (H holds q.a v → H holds q.g v) →
       H holds c1.a v ∧ H holds q.a v ∧ H holds c.g v := by
   intro v hca h1 hq
@@ -149,7 +150,7 @@ theorem quotient_sound (vars : T → List Var) (P : Prims T) (hP : Spec holds P)
   obtain ⟨hqa, _, _, hqg⟩ := mk_sem holds vars P hP h
   have hqav : H holds q.a v := by
     rw [hqa]
-    apply hP.relax_ok _ _ _ _ _ _ _ hasm v (H_nil holds v)
+    apply hP.relax_ok _ _ _ _ _ _ _ ho hasm v (H_nil holds v)
     by_cases hr : rf = true
     · subst hr
       have ha1 := hP.refines_ok _ _ _ hrf v hca
@@ -160,12 +161,12 @@ theorem quotient_sound (vars : T → List Var) (P : Prims T) (hP : Spec holds P)
   have hqav' := hqav
   rw [hqa] at hqav'
   have hg2 := (hqg v hqav').mp hqgv
-  have hg1 := orElse_refine holds P hP _ _ _ _ _ _ v hca hg2
+  have hg1 := orElse_refine holds P hP _ _ _ _ _ _ ho v hca hg2
   obtain ⟨hg0, ha1⟩ := (H_union holds _ _ v).mp hg1
   have hG1 := h1 ha1
-  exact ⟨ha1, hqav, orElse_refine holds P hP _ _ _ _ _ _ v ((H_union holds _ _ v).mpr ⟨hG1, ha1⟩) hg0⟩
+  exact ⟨ha1, hqav, orElse_refine holds P hP _ _ _ _ _ _ ho v ((H_union holds _ _ v).mpr ⟨hG1, ha1⟩) hg0⟩
 
-theorem merge_exact (vars : T → List Var) (P : Prims T) (hP : Spec holds P) (c1 c2 m : Contract T)
+theorem merge_exact (vars : T → List Var) (P : Prims T) (hP : Spec holds P okOrd) (c1 c2 m : Contract T)
     (h : merge vars P c1 c2 = .ok m) :
     (∀ v, H holds m.a v ↔ H holds c1.a v ∧ H holds c2.a v) ∧
     (∀ v, H holds m.a v → (H holds m.g v ↔ H holds c1.g v ∧ H holds c2.g v)) := by
@@ -177,7 +178,7 @@ theorem merge_exact (vars : T → List Var) (P : Prims T) (hP : Spec holds P) (c
     rw [hma] at hv
     rw [hmg v hv]; exact H_union holds _ _ v
 
-theorem refinesC_sound (P : Prims T) (hP : Spec holds P) (c d : Contract T) (h : refinesC P c d = .ok true) :
+theorem refinesC_sound (P : Prims T) (hP : Spec holds P okOrd) (c d : Contract T) (h : refinesC P c d = .ok true) :
     (∀ v, H holds d.a v → H holds c.a v) ∧ (∀ v, H holds d.a v → H holds c.g v → H holds d.g v) := by
   unfold refinesC at h
   split at h; · cases h
@@ -250,5 +251,132 @@ theorem quotient_errors (vars : T → List Var) (P : Prims T) (hE : ErrSpec P) (
 theorem merge_errors (vars : T → List Var) (P : Prims T) (hE : ErrSpec P) (c1 c2 : Contract T) (e : Err)
     (h : merge vars P c1 c2 = .error e) : e = .incompatibleArgs ∨ e = .valueError ∨ e = .oracleStuck :=
   mk_err vars P hE h
+
+end Alg
+
+namespace Alg
+variable {T : Type} [DecidableEq T] (holds : T → Val → Prop) {okOrd : List Nat → Prop}
+
+theorem mem_withVars (vars : T → List Var) (l : List T) (xs : List Var) (t : T) :
+    t ∈ withVars vars l xs ↔ t ∈ l ∧ ∃ x ∈ vars t, x ∈ xs := by
+  unfold withVars
+  rw [List.mem_filter]
+  constructor
+  · rintro ⟨h1, h2⟩
+    refine ⟨h1, ?_⟩
+    by_contra hn
+    have : (Gen.list_intersection (vars t) xs).isEmpty = true :=
+      (Gen.list_intersection_isEmpty_iff _ _).mpr (fun x hx hxs => hn ⟨x, hx, hxs⟩)
+    simp [this] at h2
+  · rintro ⟨h1, x, hx, hxs⟩
+    refine ⟨h1, ?_⟩
+    cases hh : (Gen.list_intersection (vars t) xs).isEmpty with
+    | false => rfl
+    | true => exact absurd hxs ((Gen.list_intersection_isEmpty_iff _ _).mp hh x hx)
+
+/-- every operand guarantee without internal variables is enforced by the composition -/
+theorem compose_keeps (vars : T → List Var) (P : Prims T) (hP : Spec holds P okOrd) (c1 c2 c : Contract T) (keep : List Var) (simp : Bool)
+    (ord : List Nat) (h : compose vars P c1 c2 keep simp ord = .ok c) (t : T) (ht : t ∈ c1.g ∨ t ∈ c2.g)
+    (hfree : ∀ x ∈ vars t, x ∉ (Gen.compose_iface c1.ins c1.outs c2.ins c2.outs (varsOf vars c1.a) (varsOf vars c2.a) keep).intvars) :
+    ∀ v, H holds c.a v → H holds c.g v → holds t v := by
+  intro v hca hcg
+  unfold compose at h
+  simp only at h
+  split at h; · cases h
+  split at h; · cases h
+  split at h; · cases h
+  split at h; · cases h
+  split at h; · cases h
+  split at h; · cases h
+  split at h; · cases h
+  obtain ⟨hca_eq, _, _, hg⟩ := mk_sem holds vars P hP h
+  rw [hca_eq] at hca
+  have := (hg v hca).mp hcg
+  apply this t
+  rw [Gen.mem_list_union]; right
+  rw [Gen.mem_list_diff]
+  refine ⟨(Gen.mem_list_union _ _ t).mpr ht, ?_⟩
+  rw [mem_withVars]
+  rintro ⟨_, x, hx, hxs⟩
+  exact hfree x hx hxs
+
+/-- relaxation with nothing to eliminate is an equivalence in its context (true of the polyhedral primitives) -/
+def RelaxNilEquiv (P : Prims T) : Prop :=
+  ∀ s l Γ b o r, P.elimRelax s l Γ [] b o = .ok r → ∀ v, H holds Γ v → (H holds r v ↔ H holds l v)
+
+theorem withVars_nil (vars : T → List Var) (l : List T) : withVars vars l [] = [] := by
+  apply List.eq_nil_iff_forall_not_mem.mpr
+  intro t ht
+  obtain ⟨_, x, _, hx⟩ := (mem_withVars vars l [] t).mp ht
+  cases hx
+
+theorem list_diff_nil (l : List T) : Gen.list_diff l [] = l := by
+  unfold Gen.list_diff; simp
+
+/-- no connection between the operands: the composition is exact -/
+theorem compose_exact_unconnected (vars : T → List Var) (P : Prims T) (hP : Spec holds P okOrd) (hR : RelaxNilEquiv holds P)
+    (c1 c2 c : Contract T) (keep : List Var) (simp : Bool) (ord : List Nat)
+    (hn1 : ∀ x, ¬ (x ∈ c1.outs ∧ x ∈ c2.ins)) (hn2 : ∀ x, ¬ (x ∈ c1.ins ∧ x ∈ c2.outs))
+    (h : compose vars P c1 c2 keep simp ord = .ok c) :
+    (∀ v, H holds c.a v ↔ H holds c1.a v ∧ H holds c2.a v) ∧
+    (∀ v, H holds c.a v → (H holds c.g v ↔ H holds c1.g v ∧ H holds c2.g v)) := by
+  have e1 : Gen.list_intersection c1.outs c2.ins = [] :=
+    List.eq_nil_iff_forall_not_mem.mpr (fun x hx => hn1 x ((Gen.mem_list_intersection _ _ x).mp hx))
+  have e2 : Gen.list_intersection c1.ins c2.outs = [] :=
+    List.eq_nil_iff_forall_not_mem.mpr (fun x hx => hn2 x ((Gen.mem_list_intersection _ _ x).mp hx))
+  have e3 : Gen.list_intersection c2.outs c1.ins = [] :=
+    List.eq_nil_iff_forall_not_mem.mpr (fun x hx => hn2 x ((Gen.mem_list_intersection _ _ x).mp hx).symm)
+  have e4 : Gen.list_intersection c2.ins c1.outs = [] :=
+    List.eq_nil_iff_forall_not_mem.mpr (fun x hx => hn1 x ((Gen.mem_list_intersection _ _ x).mp hx).symm)
+  have hint : (Gen.compose_iface c1.ins c1.outs c2.ins c2.outs (varsOf vars c1.a) (varsOf vars c2.a) keep).intvars = [] := by
+    simp only [Gen.compose_iface, e1, e2]
+    apply List.eq_nil_iff_forall_not_mem.mpr
+    intro x hx
+    simp [Gen.list_union, Gen.list_diff] at hx
+  have hb1 : (Gen.compose_iface c1.ins c1.outs c2.ins c2.outs (varsOf vars c1.a) (varsOf vars c2.a) keep).branch_feedback = false := by
+    simp [Gen.compose_iface, e2, e4]
+  have hb2 : (Gen.compose_iface c1.ins c1.outs c2.ins c2.outs (varsOf vars c1.a) (varsOf vars c2.a) keep).branch_self_helps = false := by
+    simp [Gen.compose_iface, e4]
+  have hb3 : (Gen.compose_iface c1.ins c1.outs c2.ins c2.outs (varsOf vars c1.a) (varsOf vars c2.a) keep).branch_other_helps = false := by
+    simp [Gen.compose_iface, e3]
+  unfold compose at h
+  simp only at h
+  split at h; · cases h
+  split at h; · cases h
+  split at h; · cases h
+  rename_i asm0 hasm
+  split at h; · cases h
+  rename_i asm1 hsimp
+  split at h; · cases h
+  rename_i g1 hg1
+  split at h; · cases h
+  rename_i g2 hg2
+  split at h; · cases h
+  rename_i all hall
+  rw [hint] at hg1 hg2 hall h
+  simp only [withVars_nil, list_diff_nil] at h
+  have hasm0 : asm0 = Gen.list_union c1.a c2.a := by
+    unfold composeAssumptions at hasm
+    simp only [hb1, hb2, hb3, Bool.false_eq_true, ↓reduceIte] at hasm
+    injection hasm with e; exact e.symm
+  have hasm1 : ∀ v, H holds asm1 v ↔ H holds asm0 v := by
+    intro v
+    by_cases hs : simp = true
+    · rw [if_pos hs] at hsimp
+      exact hP.simp_ok _ _ _ _ hsimp v (fun g hg => by cases hg)
+    · rw [if_neg hs] at hsimp; injection hsimp with e; subst e; rfl
+  obtain ⟨hca_eq, _, _, hcg⟩ := mk_sem holds vars P hP h
+  constructor
+  · intro v; rw [hca_eq, hasm1, hasm0]; exact H_union holds _ _ v
+  · intro v hca
+    rw [hca_eq] at hca
+    rw [hcg v hca, H_union, H_union]
+    constructor
+    · rintro ⟨_, h12⟩; exact h12
+    · rintro ⟨G1, G2⟩
+      refine ⟨?_, G1, G2⟩
+      have hg1v := (hR _ _ _ _ _ _ hg1 v G2).mpr G1
+      have hg2v := (hR _ _ _ _ _ _ hg2 v G1).mpr G2
+      exact (hR _ _ _ _ _ _ hall v hca).mpr ((H_union holds _ _ v).mpr ⟨hg1v, hg2v⟩)
 
 end Alg
